@@ -324,6 +324,8 @@ def C14(ctx):
     with ctx.scoped(has('subsequencesearch')):
         fwd.rule_delegation(ctx, m, ['dtaidistance.subsequence.subsequencesearch'])
         sig.rule_imports(ctx, m, ['dtaidistance.subsequence.subsequencesearch'])
+    from .rules import bounds
+    bounds.rule_lb_keogh(ctx, m)        # exactness under use_lb needs the bound to be a lower bound in both engines
     ctx.floor('R-PATH', 8, 'search loop rules')
 
 
@@ -339,6 +341,10 @@ def C16(ctx):
     misc.rule_identity(ctx, m, ['dtaidistance.clustering.kmeans', 'dtaidistance.clustering.medoids'])
     with ctx.scoped(has('kmeans')):
         sig.rule_py_to_pyx(ctx, m, ['dtaidistance.clustering.kmeans'])
+    # "nearest mean" is decided with dtw_cc.distance / distance_ndim: their option domains (penalty, max_step, max_dist vs. accumulated cost)
+    for F in _kernels(ctx, m):
+        if F.lang == 'c' and F.name in ('dtw_distance', 'dtw_distance_ndim'):
+            _py_distance_rules(ctx, m, F, ['dom'])
     ctx.floor('R-PATH', 6, 'fit path rules + helpers')
 
 
@@ -393,6 +399,8 @@ def C20(ctx):
     from .rules import purity
     purity.rule_globals(ctx, m, ALL_PY + EXTRA_PY)
     purity.rule_history(ctx, m)
+    with ctx.scoped(has('threshold reset', 'k recorded', 'cache reuse')):
+        pyshape.rule_subseq_search(ctx, m)
     ctx.floor('R-EFF', 80, 'Python + C functions with series parameters')
     ctx.floor('R-SAN', 40, 'strided memoryview arguments')
 
